@@ -1,0 +1,66 @@
+//go:build verif
+
+package syncutils
+
+import (
+	"reflect"
+	"sync"
+	"sync/atomic"
+	"unsafe"
+)
+
+// Read-only accessors for the verification harness (build tag verif only; nothing here changes any state).
+
+// verifCondWaiters returns the number of goroutines parked in c.Wait() and not yet notified
+// (sync.Cond keeps a ticket list: wait = tickets handed out, notify = tickets notified).
+func verifCondWaiters(c *sync.Cond) int {
+	nl := reflect.ValueOf(c).Elem().FieldByName("notify")
+	wait := (*uint32)(unsafe.Pointer(nl.FieldByName("wait").UnsafeAddr()))
+	notify := (*uint32)(unsafe.Pointer(nl.FieldByName("notify").UnsafeAddr()))
+
+	return int(atomic.LoadUint32(wait) - atomic.LoadUint32(notify))
+}
+
+// VerifState returns a snapshot of the lock state taken under the internal mutex, plus the number of goroutines
+// parked on the reader and the writer condition variable.
+func (f *StarvingMutex) VerifState() (readersActive int, writerActive bool, pendingWriters int, parkedReaders int, parkedWriters int) {
+	f.mutex.Lock()
+	defer f.mutex.Unlock()
+
+	return f.readersActive, f.writerActive, f.pendingWriters, verifCondWaiters(&f.readerCond), verifCondWaiters(&f.writerCond)
+}
+
+// VerifEntity returns the StarvingMutex and the consumer count currently registered for id.
+func (d *DAGMutex[T]) VerifEntity(id T) (mutex *StarvingMutex, consumers int, exists bool) {
+	d.Mutex.Lock()
+	defer d.Mutex.Unlock()
+
+	mutex, exists = d.mutexes.Get(id)
+	consumers, _ = d.consumerCounter.Get(id)
+
+	return mutex, consumers, exists
+}
+
+// VerifSize returns the number of registered entities (mutexes, consumer counters).
+func (d *DAGMutex[T]) VerifSize() (mutexes int, counters int) {
+	d.Mutex.Lock()
+	defer d.Mutex.Unlock()
+
+	return d.mutexes.Size(), d.consumerCounter.Size()
+}
+
+// VerifState returns the value and the number of goroutines parked in WaitIsBelow / WaitIsAbove.
+func (c *Counter) VerifState() (value int, parkedBelow int, parkedAbove int) {
+	c.valueMutex.Lock()
+	defer c.valueMutex.Unlock()
+
+	return c.value, verifCondWaiters(c.valueDecreasedCond), verifCondWaiters(c.valueIncreasedCond)
+}
+
+// VerifState returns the size and the number of goroutines parked on elementAdded / elementRemoved.
+func (b *Stack[T]) VerifState() (size int, parkedAdded int, parkedRemoved int) {
+	b.mutex.Lock()
+	defer b.mutex.Unlock()
+
+	return b.elements.Len(), verifCondWaiters(b.elementAdded), verifCondWaiters(b.elementRemoved)
+}
